@@ -70,6 +70,24 @@ def obligations():
                 o.append(Obl(f"C10.voxel.{c}.{tag}.order{order}", "py", V, "voxel_pair", venc, f"cell {c}, SMALL cutoff (0.4 x half width: many voxel rows), a pair straddling a cell face at fractional (y, z) {A} / {B}, atom order {order}; x symbolic",
                              "same: the neighbour is reached through the periodic image of a voxel layer / row, whose window is shifted by the image's offset", 900,
                              params={"cell": c, "cut_frac": 0.4, "g0": 0, "points": f"{P0[0]},{P0[1]},{P1[0]},{P1[1]}"}))
+    import math
+    from harness.c10_voxel import _width as _vw
+    for c in ("triclinic", "skewed"):
+        by, cy, cz = float(VC[c][1][1]), float(VC[c][2][1]), float(VC[c][2][2])
+        cutv = 0.4 * _vw([[float(v) for v in r] for r in VC[c]]) / 2
+        dz = 0.08 * cz
+        if dz < 0.9 * cutv:
+            dy = math.sqrt((0.97 * cutv) ** 2 - dz ** 2)
+            for sgn, ph in ((sg, ph_) for sg in (1, -1) for ph_ in range(5)):
+                # B's image one cell below sits dy (almost the whole cutoff) beside A in y: the partner lies in the outermost voxel row of the shifted window
+                # (five phases of A within its voxel row)
+                A = (0.40 + 0.021 * ph, 0.04)
+                fyB = A[0] + (sgn * dy + 0.08 * cy) / by
+                for order in (0, 1):
+                    pa, pb = (round(A[0] * by + A[1] * cy, 4), round(A[1] * cz, 4)), (round(fyB * by + 0.96 * cy, 4), round(0.96 * cz, 4))
+                    P0, P1 = (pa, pb) if order == 0 else (pb, pa)
+                    o.append(Obl(f"C10.voxel.{c}.zface_far.{'plus' if sgn > 0 else 'minus'}.ph{ph}.order{order}", "py", V, "voxel_pair", venc, f"cell {c}, cutoff 0.4 x half width, a pair through the z face whose images are 0.97 cutoff apart, almost all of it along y ({'+' if sgn > 0 else '-'}), atom order {order}; x symbolic",
+                                 "same: the partner sits in the outermost voxel row of the window shifted by the image's y offset", 900, params={"cell": c, "cut_frac": 0.4, "g0": 0, "points": f"{P0[0]},{P0[1]},{P1[0]},{P1[1]}"}))
     for c in ("cubic3", "ortho543", "triclinic"):
         by, cy, cz = float(VC[c][1][1]), float(VC[c][2][1]), float(VC[c][2][2])
         yz = lambda fy, fz: (round(fy * by + fz * cy, 4), round(fz * cz, 4))
@@ -96,5 +114,5 @@ MANIFEST_INFO = {
     "engine": "llsym+cxxsym",
     "technique": "forking symbolic interpretation of neighbors.cpp's LLVM IR (incl. std::vector code) with symbolic coordinates and exact non-linear real queries on the wrapped difference; the voxel list neighborlist.cpp lowered from clang's JSON AST and executed on atom pairs with symbolic x (z3 linear arithmetic with floor / round integers), native shim replay",
     "text": "compute_neighbors' kernel returns exactly the haystack atoms within the cutoff (minimum-image sense) for every atom placement, for catalogue cells and cutoffs up to half the cell width. compute_neighborlist's voxel search lists an atom pair (symmetrically, once) exactly when an image is within the cutoff, for every x of both atoms within +-2.5 cells and a grid of y / z positions inside and outside the cell, for five cells and no cell.",
-    "note": "The voxel list is decided for pairs (two atoms per call) with y / z on a grid; the Cython frame loops are outside. A defect found this way (atoms outside the primary cell lose neighbours) was repaired in b5a4600c.",
+    "note": "The voxel list is decided for pairs (two atoms per call, optionally a third concrete far atom) with y / z on grids or explicit positions; defects that need three or more interacting atoms are outside this bound (seeded C10-m7 is not detected); the Cython frame loops are outside. Two defects found this way were repaired (b5a4600c: atoms outside the primary cell lose neighbours; 4e184836: skewed cells with few voxel layers).",
 }
